@@ -3,6 +3,7 @@
 import json, subprocess, sys, time
 pid, name = sys.argv[1:3]
 tier = sys.argv[3] if len(sys.argv) > 3 else "quick"
+check_id = sys.argv[4] if len(sys.argv) > 4 else pid        # a mutation may break a neighbouring property instead
 d = "/verif/seeded/%s/%s" % (pid, name)
 def sh(c, cwd=None, timeout=3600):
     p = subprocess.run(c, shell=True, cwd=cwd, stdout=subprocess.PIPE, stderr=subprocess.STDOUT, text=True, timeout=timeout)
@@ -16,7 +17,7 @@ if rc != 0:
     print("patch does not apply any more:", out[:200]); sys.exit(1)
 t = time.time()
 try:
-    rc, out = sh("timeout 3400 ./check %s --tier %s" % (pid, tier), "/verif")
+    rc, out = sh("timeout 3400 ./check %s --tier %s" % (check_id, tier), "/verif")
 finally:
     sh("git checkout -- .", "/repo")
 lines = out.splitlines()
@@ -27,8 +28,8 @@ for i, l in enumerate(lines):
         first = lines[i + 1].strip()[:400]; break
 meta = json.load(open(d + "/meta.json"))
 meta.setdefault("history", []).append(meta.get("check"))
-meta["check"] = {"cmd": "./check %s --tier %s" % (pid, tier), "rc": rc, "violations": len(viol), "first_violation": first,
+meta["check"] = {"cmd": "./check %s --tier %s" % (check_id, tier), "rc": rc, "violations": len(viol), "first_violation": first,
                  "secs": round(time.time() - t, 1), "repo_head": sh("git -C /repo rev-parse --short HEAD")[1].strip()}
 meta["detected"] = rc == 1 and len(viol) > 0
 json.dump(meta, open(d + "/meta.json", "w"), indent=1)
-print("RECHECK %s/%s detected=%s rc=%d violations=%d  %s" % (pid, name, meta["detected"], rc, len(viol), first[:200]))
+print("RECHECK (check %s) %s/%s detected=%s rc=%d violations=%d  %s" % (check_id, pid, name, meta["detected"], rc, len(viol), first[:200]))
